@@ -252,48 +252,50 @@ func namedStruct(t types.Type) *types.Named {
 // hasNext is true whenever the batch also holds the final result, and the stream would never be closed.
 func batchHasNextFromLast(c *Ctx) {
 	c.R.Rule("batch-hasnext-from-last", "multipartResponseAggregator.flush: every read of HasNext on an element of deferResponses indexes the slice with len-1 or ranges over it", 1)
-	fn := c.W.Func(pkgTransport, "*multipartResponseAggregator.flush")
-	if fn == nil {
-		c.R.Fail("unresolved anchor: transport.(*multipartResponseAggregator).flush")
+	fns := aggregatorMethods(c)
+	if len(fns) == 0 {
+		c.R.Fail("unresolved anchor: methods of transport.multipartResponseAggregator")
 		return
 	}
 	n := 0
-	for _, b := range fn.Blocks {
-		for _, in := range b.Instrs {
-			fa, ok := in.(*ssa.FieldAddr)
-			if !ok || fieldNameOf(fa) != "HasNext" {
-				continue
-			}
-			ia, ok := loadAddr(fa.X).(*ssa.IndexAddr)
-			if !ok {
-				continue
-			}
-			sl, ok := loadAddr(ia.X).(*ssa.FieldAddr)
-			if !ok || fieldNameOf(sl) != "deferResponses" {
-				continue
-			}
-			n++
-			ok = false
-			switch ix := an.Strip(ia.Index).(type) {
-			case *ssa.BinOp:
-				if k, isC := an.ConstInt(ix.Y); ix.Op == token.SUB && isC && k == 1 {
-					if call, isCall := ix.X.(*ssa.Call); isCall {
-						if bi, isB := call.Call.Value.(*ssa.Builtin); isB && bi.Name() == "len" {
-							if sl2, ok2 := loadAddr(call.Call.Args[0]).(*ssa.FieldAddr); ok2 && fieldNameOf(sl2) == "deferResponses" {
-								ok = true
+	for _, fn := range fns {
+		for _, b := range fn.Blocks {
+			for _, in := range b.Instrs {
+				fa, ok := in.(*ssa.FieldAddr)
+				if !ok || fieldNameOf(fa) != "HasNext" {
+					continue
+				}
+				ia, ok := loadAddr(fa.X).(*ssa.IndexAddr)
+				if !ok {
+					continue
+				}
+				sl, ok := loadAddr(ia.X).(*ssa.FieldAddr)
+				if !ok || fieldNameOf(sl) != "deferResponses" {
+					continue
+				}
+				n++
+				ok = false
+				switch ix := an.Strip(ia.Index).(type) {
+				case *ssa.BinOp:
+					if k, isC := an.ConstInt(ix.Y); ix.Op == token.SUB && isC && k == 1 {
+						if call, isCall := ix.X.(*ssa.Call); isCall {
+							if bi, isB := call.Call.Value.(*ssa.Builtin); isB && bi.Name() == "len" {
+								if sl2, ok2 := loadAddr(call.Call.Args[0]).(*ssa.FieldAddr); ok2 && fieldNameOf(sl2) == "deferResponses" {
+									ok = true
+								}
 							}
 						}
 					}
+				case *ssa.Phi, *ssa.Extract:
+					ok = true // loop index
+				case *ssa.Const:
+					if ix.Value != nil && ix.Value.Kind() == constant.Int {
+						ok = false
+					}
 				}
-			case *ssa.Phi, *ssa.Extract:
-				ok = true // loop index
-			case *ssa.Const:
-				if ix.Value != nil && ix.Value.Kind() == constant.Int {
-					ok = false
-				}
+				c.R.Check(ok, "flush/HasNext-read", c.ipos(in), "hasNext of the batch is the newest result's",
+					"the part's hasNext is taken from a fixed element of the batch, not from the newest result: a batch that contains the final result is written with hasNext:true and the closing boundary is never sent")
 			}
-			c.R.Check(ok, "flush/HasNext-read", c.ipos(in), "hasNext of the batch is the newest result's",
-				"the part's hasNext is taken from a fixed element of the batch, not from the newest result: a batch that contains the final result is written with hasNext:true and the closing boundary is never sent")
 		}
 	}
 	if n == 0 {
@@ -412,9 +414,9 @@ func c13GroupIsolated(c *Ctx) {
 // (true would write the separating boundary after a plain, non-deferred response and the closing boundary would never be sent.)
 func hasNextAbsentIsFalse(c *Ctx) {
 	c.R.Rule("hasnext-absent-is-false", "multipartResponseAggregator.flush: every boolean merged (phi) with a load of *X.HasNext is the constant false — an absent hasNext means the payload is final", 2)
-	fn := c.W.Func(pkgTransport, "*multipartResponseAggregator.flush")
-	if fn == nil {
-		c.R.Fail("unresolved anchor: transport.(*multipartResponseAggregator).flush")
+	fns := aggregatorMethods(c)
+	if len(fns) == 0 {
+		c.R.Fail("unresolved anchor: methods of transport.multipartResponseAggregator")
 		return
 	}
 	isHasNextLoad := func(v ssa.Value) bool {
@@ -426,30 +428,32 @@ func hasNextAbsentIsFalse(c *Ctx) {
 		return ok && fieldNameOf(fa) == "HasNext"
 	}
 	n := 0
-	for _, b := range fn.Blocks {
-		for _, in := range b.Instrs {
-			phi, ok := in.(*ssa.Phi)
-			if !ok {
-				continue
-			}
-			has := false
-			for _, e := range phi.Edges {
-				if isHasNextLoad(e) {
-					has = true
+	for _, fn := range fns {
+		for _, b := range fn.Blocks {
+			for _, in := range b.Instrs {
+				phi, ok := in.(*ssa.Phi)
+				if !ok {
+					continue
 				}
-			}
-			if !has {
-				continue
-			}
-			n++
-			ok = true
-			for _, e := range phi.Edges {
-				if k, isC := e.(*ssa.Const); isC && k.Value != nil && k.Value.Kind() == constant.Bool && constant.BoolVal(k.Value) {
-					ok = false
+				has := false
+				for _, e := range phi.Edges {
+					if isHasNextLoad(e) {
+						has = true
+					}
 				}
+				if !has {
+					continue
+				}
+				n++
+				ok = true
+				for _, e := range phi.Edges {
+					if k, isC := e.(*ssa.Const); isC && k.Value != nil && k.Value.Kind() == constant.Bool && constant.BoolVal(k.Value) {
+						ok = false
+					}
+				}
+				c.R.Check(ok, sprintf("flush/hasNext-merge#%d", n), c.pos(phi.Pos()), "absent hasNext counts as false",
+					"a payload without hasNext is treated as hasNext:true: a response without @defer sent as multipart/mixed is followed by a separating boundary and the closing boundary never appears")
 			}
-			c.R.Check(ok, sprintf("flush/hasNext-merge#%d", n), c.pos(phi.Pos()), "absent hasNext counts as false",
-				"a payload without hasNext is treated as hasNext:true: a response without @defer sent as multipart/mixed is followed by a separating boundary and the closing boundary never appears")
 		}
 	}
 	if n < 2 {
@@ -491,7 +495,25 @@ func streamLoopExits(c *Ctx) {
 					continue
 				}
 				bo, ok := iff.Cond.(*ssa.BinOp)
-				okExit := ok && (bo.Op == token.EQL || bo.Op == token.NEQ) && (an.Strip(bo.X) == hcall || an.SameVar(bo.X, hcall)) && an.IsNilConst(bo.Y)
+				isResult := func(v ssa.Value) bool {
+					v = an.Strip(v)
+					if v == hcall || an.SameVar(v, hcall) {
+						return true
+					}
+					// `for r := h(ctx); r != nil; r = h(ctx)`: the tested value merges two calls of the handler
+					phi, isPhi := v.(*ssa.Phi)
+					if !isPhi {
+						return false
+					}
+					for _, e := range phi.Edges {
+						call, isCall := an.Strip(e).(*ssa.Call)
+						if !isCall || !an.NamedIs(call.Call.Value.Type(), pkgGraphql, "ResponseHandler") {
+							return false
+						}
+					}
+					return true
+				}
+				okExit := ok && (bo.Op == token.EQL || bo.Op == token.NEQ) && isResult(bo.X) && an.IsNilConst(bo.Y)
 				if !okExit {
 					bad = iff
 				}
@@ -507,4 +529,18 @@ func streamLoopExits(c *Ctx) {
 	if n < 3 {
 		c.R.Fail("stream-loop-exits-on-nil: %d response loops found", n)
 	}
+}
+
+// aggregatorMethods: the methods of transport.multipartResponseAggregator (flush may be split into helpers).
+func aggregatorMethods(c *Ctx) []*ssa.Function {
+	var out []*ssa.Function
+	for _, fn := range transportFuncs(c) {
+		if fn.Parent() != nil || fn.Signature.Recv() == nil {
+			continue
+		}
+		if an.NamedIs(fn.Signature.Recv().Type(), pkgTransport, "multipartResponseAggregator") {
+			out = append(out, fn)
+		}
+	}
+	return out
 }
